@@ -2,9 +2,11 @@
 // ack.Queue and records return values and every callback invocation.
 //
 // Scenario file: one JSON array of calls per line,
-//   {"op":"insert","s":"s1","id":1,"kind":"pub1","d":5000}
-//   {"op":"ack","s":"s1","id":1,"ty":"PUBACK"}
-//   {"op":"sweep","now":5200}
+//
+//	{"op":"insert","s":"s1","id":1,"kind":"pub1","d":5000}
+//	{"op":"ack","s":"s1","id":1,"ty":"PUBACK"}
+//	{"op":"sweep","now":5200}
+//
 // times are milliseconds relative to a fixed base instant that is a whole second.
 // Every scenario is closed by a sweep far in the future so that every registered
 // exchange must have shown its outcome by the end.
